@@ -143,7 +143,7 @@ func cmdScenario() int {
 		s := *u.Scenario
 		res = mc.Explore(s.ID, worlds.Factory(s), mc.Options{
 			MaxStates: s.MaxStates, MaxDepth: s.MaxDepth, Deadline: deadline,
-			Livelock: true, KeepSamples: 3, LivelockProperty: "C20", ValidateEvery: validateEvery(),
+			Livelock: true, KeepSamples: 3, LivelockProperty: "C20", ValidateEvery: validateEvery(), PanicProperty: u.Property,
 		})
 	case "pure":
 		res = pure.Run(*u.Pure, deadline)
